@@ -26,16 +26,19 @@ type KeyedMutex[T comparable] struct {
 
 func (km *KeyedMutex[T]) LockKey(key T) {
 	m, _ := km.m.LoadOrStore(key, &sync.Mutex{})
+	verifLock("KM.LockKey", m)
 	m.Lock()
 }
 
 func (km *KeyedMutex[T]) TryLockKey(key T) bool {
 	m, _ := km.m.LoadOrStore(key, &sync.Mutex{})
+	verifYield("KM.TryLockKey")
 	return m.TryLock()
 }
 
 func (km *KeyedMutex[T]) UnlockKey(key T) {
 	m, _ := km.m.LoadOrStore(key, &sync.Mutex{})
+	verifYield("KM.UnlockKey")
 	m.Unlock()
 }
 
@@ -57,31 +60,37 @@ type KeyedRWMutex[T comparable] struct {
 
 func (km *KeyedRWMutex[T]) LockKey(key T) {
 	m, _ := km.m.LoadOrStore(key, &sync.RWMutex{})
+	verifLock("KRW.LockKey", m)
 	m.Lock()
 }
 
 func (km *KeyedRWMutex[T]) TryLockKey(key T) bool {
 	m, _ := km.m.LoadOrStore(key, &sync.RWMutex{})
+	verifYield("KRW.TryLockKey")
 	return m.TryLock()
 }
 
 func (km *KeyedRWMutex[T]) UnlockKey(key T) {
 	m, _ := km.m.LoadOrStore(key, &sync.RWMutex{})
+	verifYield("KRW.UnlockKey")
 	m.Unlock()
 }
 
 func (km *KeyedRWMutex[T]) RLockKey(key T) {
 	m, _ := km.m.LoadOrStore(key, &sync.RWMutex{})
+	verifRLock("KRW.RLockKey", m)
 	m.RLock()
 }
 
 func (km *KeyedRWMutex[T]) TryRLockKey(key T) bool {
 	m, _ := km.m.LoadOrStore(key, &sync.RWMutex{})
+	verifYield("KRW.TryRLockKey")
 	return m.TryRLock()
 }
 
 func (km *KeyedRWMutex[T]) RUnlockKey(key T) {
 	m, _ := km.m.LoadOrStore(key, &sync.RWMutex{})
+	verifYield("KRW.RUnlockKey")
 	m.RUnlock()
 }
 
